@@ -132,6 +132,9 @@ func c08NoNaN(r *fw.Rand, stride int) []float64 {
 // (a) Bounds() of single geometries and of nested collections
 func c08Geoms(c *fw.Ctx, idx int) {
 	r := c.R
+	if r.Chance(1, 32) {
+		c08RefusedCalls(c)
+	}
 	var g *model.G
 	if r.Chance(1, 3) {
 		g = gen.Collection(r, gen.SmallInt, gen.CollOpts{
@@ -244,8 +247,32 @@ func permutations(n int) [][]int {
 }
 
 // (b) Extend histories: every order of the same multiset must give the same box
+// c08RefusedCalls: Bounds()/Extend on collections that hold a nil member behind
+// valid ones (they panic part-way as the code stands; the caller recovers).  Nothing
+// is judged here: the judged calls that follow must not see what these left behind.
+func c08RefusedCalls(c *fw.Ctx) {
+	for k := 0; k < 2; k++ {
+		func() {
+			defer func() { _ = recover() }()
+			inner := geom.NewGeometryCollection()
+			_ = inner.Push(geom.NewPointFlat(geom.XY, []float64{-500, 900}), nil, geom.NewPointFlat(geom.XYZ, []float64{1000, -1000, 77}))
+			gc := geom.NewGeometryCollection()
+			_ = gc.Push(geom.NewLineStringFlat(geom.XYM, []float64{-7, -7, 5, 8, 8, 6}), inner, geom.NewPointFlat(geom.XY, []float64{4e6, 4e6}))
+			if k == 0 {
+				_ = gc.Bounds()
+			} else {
+				_ = geom.NewBounds(geom.XY).Extend(gc)
+			}
+		}()
+	}
+	c.Count("refused_bounds_calls_first")
+}
+
 func c08Extend(c *fw.Ctx, idx int) {
 	r := c.R
+	if r.Chance(1, 16) {
+		c08RefusedCalls(c)
+	}
 	n := r.Range(1, 6)
 	start := []geom.Layout{geom.NoLayout, geom.XY, geom.XY, geom.XYZ, geom.XYM}[r.Intn(5)]
 	gs := make([]*model.G, n)
